@@ -132,7 +132,9 @@ partial def decJ (s : Sexp) : Option J :=
       let m ← m.asInt?
       let e ← e.asNat?
       let l ← l.asBool?
-      pure (.num (Dy.norm ⟨m, e⟩) l)
+      -- an integer spelling which fits an int64 is the exact `int` kind (J1)
+      if l && e == 0 && -(2 : Int) ^ 63 ≤ m && m < (2 : Int) ^ 63 then pure (.int (BitVec.ofInt 64 m))
+      else pure (.num (Dy.norm ⟨m, e⟩) l)
   | .list [.atom "js", x] => x.asStr?.map .str
   | .list (.atom "ja" :: xs) => do
       let js ← xs.mapM decJ
@@ -153,6 +155,7 @@ partial def encJ : J → String
   | .null => "null"
   | .bool b => s!"(jb {boolS b})"
   | .num d l => let n := d.norm; s!"(jn {n.m} {n.e} {boolS l})"
+  | .int i => s!"(jn {i.toInt} 0 true)"
   | .str s => s!"(js {Sexp.hexOfString s})"
   | .arr xs => "(ja" ++ encJs xs ++ ")"
   | .obj fs => "(jo" ++ String.join ((sortKV (encJFields fs)).map fun kv => s!" ({Sexp.hexOfString kv.1} {kv.2})") ++ ")"
@@ -301,7 +304,7 @@ def cmdVRt (payload : String) : String :=
     match decVal v, decTy t with
     | some v, some T =>
       let repr := jsonRepr T v && v.wf && T.wf
-      let prog := repr && noIntegralFloat v
+      let prog := jsonReprProg T v && v.wf && T.wf      -- J1: whole floats and every int are in the class
       let j := if lib == "tree" then marshalTree v else marshalVM v
       match j with
       | none => s!"repr={boolS repr} prog={boolS prog} ERR marshal"
